@@ -25,7 +25,7 @@ def showList (l : List Name) : String := "[" ++ ",".intercalate (l.map showName)
 def showRes : Res → String
   | .ok => "ok" | .root => "root" | .noparent => "noparent" | .exists_ => "exists" | .notempty => "notempty"
   | .unsupported => "unsupported" | .notfound => "notfound" | .invalid => "invalid" | .sqlerr => "sqlerr"
-  | .rmdir => "rmdir"
+  | .rmdir => "rmdir" | .mergefail => "mergefail"
 
 def showOut : Out → String
   | .res r => showRes r
